@@ -256,6 +256,10 @@ def harnesses(tier):
         "H6 write||write": (["write-canon|v3:salt", "write|v3:single"], "dfa-cold"),
         "H8 read v3||read v3": (["read|v3:star", "read|v3:split"], "dfa-cold"),
         "H9 read v2||canon": (["read|v2:isolated", "canon|v3:salt"], "dfa-cold"),
+        # single calls on prebuilt inputs: short bodies, explored to preemption bound 2
+        "T3 canonicalize||canonicalize": (["canon-pre|v3:single", "canon-pre|v3:isoA"], "dfa-cold"),
+        "T4 serialize||serialize": (["serialize-pre|v3:single", "serialize-pre|v3:single"], "dfa-cold"),
+        "T5 write||canonicalize": (["write-pre|v3:single", "canon-pre|v3:salt"], "dfa-cold"),
         # fresh module-level state of the whole library before every execution (first use of lazily built tables)
         "H0 cold modules: read||read": (["read|v3:single", "read|v3:many-elements"], "cold-modules"),
     }
@@ -317,6 +321,9 @@ def _sched_job(job):
             modstate.reset("keep")
         else:
             _init_state(init)
+        if hname.startswith(("T3", "T4", "T5")) and not W._PRE:
+            for _n, _fn in bodies_named:
+                W.run_item(_fn)  # builds the shared prebuilt inputs outside the managed threads
         settings_before = _interpreter_settings()
         bodies = [(lambda fn=fn: _digest(W.run_item(fn))) for _, fn in bodies_named]
         try:
@@ -400,6 +407,8 @@ def schedule_engine(rep, tier):
     for hname, (bodies, init) in H.items():
         nthreads = len(bodies)
         bound = 1
+        if nthreads == 2 and hname.startswith(("T3", "T4", "T5")):
+            bound = 2
         if tier == "thorough" and nthreads == 2 and hname.startswith(("T1", "T2")):
             bound = 2
         _BOUND[(tier, hname)] = bound
